@@ -4,6 +4,8 @@
 package main
 
 import (
+	"io"
+	"log"
 	"strings"
 
 	"gopkg.in/src-d/hercules.v10/verifapi"
@@ -57,12 +59,16 @@ type tracked struct {
 func observe(tr *tracked) Sx {
 	f := tr.file
 	var nodes []Sx
+	maxKey := 0
 	for it := f.VerifTree().Min(); !it.Limit(); it = it.Next() {
 		nodes = append(nodes, L(I(int(it.Item().Key)), I(int(it.Item().Value))))
+		if int(it.Item().Key) > maxKey {
+			maxKey = int(it.Item().Key)
+		}
 	}
 	n := f.Len()
 	var lines []int
-	if n <= hugeLen {
+	if maxKey <= hugeLen { // flatten allocates one int per line
 		lines = f.VerifFlatten()
 	}
 	cbs := make([]Sx, len(tr.cbs))
@@ -372,7 +378,7 @@ func malformedCase(c *Config) {
 		tr.step(o)
 	}
 	n := tr.file.Len()
-	big := []int{1 << 32, 1<<32 + 1, 1<<32 + 5, 1<<32 + n, 1 << 33, 1<<62 + 3, maxU32, maxU32 - 1}
+	big := []int{1 << 32, 1<<32 + 1, 1<<32 + 5, 1<<32 + n, 1 << 33, 1<<61 + 3, maxU32, maxU32 - 1}
 	pick := func(l []int) int { return l[r.Intn(len(l))] }
 	t, pos, ins, del := 20, r.Intn(n+1), r.Intn(3), 0
 	if pos < n {
@@ -399,6 +405,13 @@ func malformedCase(c *Config) {
 		del = pick(big)
 	case 9:
 		ins = pick(big)
+		if ins <= maxU32 && del >= 0 && pos+del <= n {
+			// passes the guards: keep the new length within uint32 (the largest admissible insertion)
+			ins = maxU32 - (n - del)
+			ops = append(ops, op{t, pos, ins, del})
+			runCase(c, "malformed", t0, n0, ops)
+			return
+		}
 	case 10: // an empty request, possibly beyond the end
 		ins, del = 0, 0
 		pos = n + r.Intn(3)
@@ -468,6 +481,7 @@ func hugeCase(c *Config) {
 func main() {
 	c := Setup()
 	defer c.Close()
+	log.SetOutput(io.Discard) // log.Panicf prints before it panics
 	if c.Replay != "" {
 		for _, cs := range c.ReplayCases() {
 			var ops []op
